@@ -3,7 +3,7 @@
    Assumptions beneath.  Model: Model/SortSearch.v (transcription of _coo/common.py); meaning:
    Spec/NpSort.v.  Element values are integers (NaN ordering and complex data are not modelled). *)
 From Coq Require Import ZArith List Bool Sorting.Sorted Sorting.Permutation.
-From Verif Require Import Py Shape COO COOP NpSort SortSearch SortSearchP SortSearchNdP S_sortsearch SortSearchSrc ShapeOps.
+From Verif Require Import Py Shape COO COOP NpSort SortSearch SortSearchP SortSearchNdP SortSearchDenseP S_sortsearch SortSearchSrc ShapeOps.
 Import ListNotations.
 Open Scope Z_scope.
 
@@ -257,6 +257,25 @@ Print Assumptions argminmax_empty_rejected.
    Gen/S_sortsearch.v is regenerated from /repo on every run (tools/sitegen/sortsearch.py: the
    normalised text of every line of each function); Model/SortSearchSrc.v is the text the model was
    transcribed from.  Any edit of one of these functions makes these statements fail. *)
+(* ------------------------------------------------------------------ Spec-as-proved = Spec-as-judged
+   The pointwise statements above, lifted to the EXECUTABLE dense-array functions of Spec/NpSort.v that
+   Corr/C10Judge.v evaluates on every generated case (res_dense maps Ok c to Ok (todense c)):
+   for EVERY axis argument (valid, negative, out of range; None for argmax/argmin), every ndim >= 1,
+   empty axes and empty arrays included, the wrapper's outcome — array or ValueError — is NumPy's. *)
+Theorem sort_dense :
+  forall (x : coo Z) (axis : Z) (desc : bool),
+    canonical Z x -> shape_ok (c_shape x) -> (1 <= length (c_shape x))%nat ->
+    res_dense (ss_sort x axis desc) = np_sort_axis (todense x) axis desc.
+Proof. exact sort_dense_proof. Qed.
+Print Assumptions sort_dense.
+
+Theorem argminmax_dense :
+  forall (maxm kd : bool) (x : coo Z) (axis : option Z),
+    canonical Z x -> prunedb Z.eqb x = true -> shape_ok (c_shape x) -> (1 <= length (c_shape x))%nat ->
+    res_dense (ss_argminmax maxm x axis kd) = np_argbest_axis maxm (todense x) axis kd.
+Proof. exact argminmax_dense_proof. Qed.
+Print Assumptions argminmax_dense.
+
 (* the axis normalisation of the model (NpSort.norm_axis) is the fragment of _utils.normalize_axis
    translated from the source on every run (ShapeOps.norm_axis over Gen/G_shapeops.v) *)
 Theorem norm_axis_generated :
